@@ -22,7 +22,8 @@ from . import d_util as U
 PROP = 'C12'
 LEAN_MODULES = ['Femio.Props.C12']
 THEOREMS = ['C12_structure', 'C12_structure_count', 'C12_tet_sign', 'C12_hex_sign_convex', 'C12_mirror_sign',
-            'C12_area_sum_zero', 'C12_divergence', 'C12_normal_is_area_vector', 'C12_similarity_area', 'C12_similarity_sign']
+            'C12_area_sum_zero', 'C12_divergence', 'C12_normal_is_area_vector', 'C12_similarity_area', 'C12_similarity_sign',
+            'C12_affine_sign']
 PARTIAL = [
     'C12_hex_sign_convex needs convexity as an explicit hypothesis (every cell vertex on the inner side of the '
     'facet plane); for tetrahedra the sign is derived from positivity of the volume alone (C12_tet_sign)',
@@ -32,6 +33,10 @@ PARTIAL = [
     'floating point is not modelled: in exact arithmetic the clauses are invariant under x -> s x + t (C12_similarity_area, '
     'C12_similarity_sign), so the model cannot see the clamp of functions.normalize on small facets or cancellation far from the origin; '
     'those are covered by the oracle + metamorphic streams `absolute-scale` and `far-offset` on the real code only (bounded testing, not proof)',
+    'likewise the computed sign is invariant under every affine map with positive determinant (C12_affine_sign): a thin layer (stretch '
+    'diag(1,1,tau)) or a cell of a graded grid gets the signs of the unit cell for EVERY tau / size ratio, so single-precision positions or a '
+    'clamp relative to the largest facet of the batch are invisible to the model; stream `extreme-geometry` covers them on the real code '
+    '(oracle with exact reference + D tie of facets / incidence / signs; bounded testing, not proof)',
 ]
 RULE = ('seeded conforming tet or hex meshes from harness/meshgen.gen_geometric (1..3 cells per axis, thorough ..4; '
         'affine map, optional jitter, voids / several components, unreferenced nodes, arbitrary node / element ids and '
@@ -52,13 +57,36 @@ RULE = ('seeded conforming tet or hex meshes from harness/meshgen.gen_geometric 
         'k 2^(E-50) that fill the whole mantissa and keep the translation exact, one third with two-decimal offsets (UTM-like; the mesh is '
         'then DEFINED by the rounded float64 coordinates); in both streams: structure clauses, metric_oracle, metamorphic relation against '
         'the observation of the untransformed mesh (facet rows, facet ids, incidence triples and signs identical; normals, areas and area '
-        'vectors equal up to the exact factor); no model correspondence there (the exact model cannot see float effects)')
+        'vectors equal up to the exact factor); no model correspondence there (the exact model cannot see float effects); '
+        'stream `extreme-geometry` (inside the quantifier, "any size, any boundary shape"; 42 quick / 420 thorough cases): tensor-product grids of '
+        '1..3 (thorough ..4) cells per axis, hex or Kuhn-split into tets, voids, unreferenced nodes outside the body, arbitrary ids / storage '
+        'order, whose spacings are extreme WITHIN one mesh - `thin` (1-2 layers of one axis of thickness tau x extent), `thin2` (thin layers in '
+        '2-3 axes: edge / corner cells with facets tau x tau), `graded` (1-3 axes with neighbouring regions whose sizes differ by the factor '
+        'rho, up to two steps), `thin+graded`; tau cycled through 1/2^13 1e-4 1/2^17 3e-5 1/2^20 1e-6 1/2^23 3.7e-7 1/2^26 2e-8 1e-8 1/2^30 '
+        '1e-9 3e-9 (dyadic and non-dyadic), rho through 1e2 1e6 2^10 1e4 2^20 1e3 2^13 1e5 317 2^17 2^7; mapped by an exact rational map '
+        '(signed axis permutation x identity / dyadic shear / rotations with entries k/3, k/5, k/7), placed at the corner / centred / offset by '
+        '<= 2 x size, multiplied by 2^e with e chosen from the mesh so that 2 x area of the SMALLEST facet is in [4e-9, 1.6e-8) (`edge`, 3/7), '
+        'up to 4^24 larger (`inside`, 3/7) or 4^2..4^8 below the clamp-free range of functions.normalize (`below`, 1/7: those facets and their '
+        'cells are classified and counted, nothing metric is asserted on them), then rounded to float64 - the mesh is DEFINED by the rounded '
+        'coordinates; judged by the structure clauses, the D tie to the exact model (facet rows, incidence, signs, theorem hypotheses) and the '
+        'metric clauses against the exact integer reference with LOCAL conditioning tolerances (length = diameter of the facet / cell itself: '
+        'relative to the largest cell a tolerance judges nothing on the small cells); '
+        'dimension `layout` (a storage detail of the same mesh): every third case of the streams ids-pow2 / int-coords / extreme-geometry hands '
+        'femio ids and connectivity as int32 / uint32 / uint64 / int16 / uint16 / uint8 (when the values fit) and all arrays Fortran-ordered / as '
+        'transposed views / as non-contiguous slices of larger arrays / read-only')
 ASSUMPTIONS = [
     'cells are convex and non-overlapping (generator: positive affine images of bricks, jitter accepted only if every '
     'face-fan sub-tet stays positive); the model decides `faceDeterminedB`, `ownNodesB`, `distinctKeysB`, '
     '`mirrorConformingB` per mesh',
     'the dtype of the node array (float64 / int64) is a storage detail of a conforming mesh: integer-coordinate meshes are inside '
-    'the quantifier and are built directly with an int64 FEMAttribute (not through the float-only meshgen.to_femio)',
+    'the quantifier and are built directly with an int64 FEMAttribute (not through the float-only meshgen.to_femio); so are the integer dtype '
+    'of ids / connectivity and the memory layout of every array (dimension `layout`)',
+    'stream extreme-geometry: the mesh is the one DEFINED by the float64 coordinates femio is given (rounding a rotated tensor grid leaves '
+    'faces planar and cells convex up to 2^-53 of the coordinates, at least 1e-7 of the thinnest layer; the exact deviation of every cell from '
+    'planar faces enters the tolerance of the divergence clause as `defect`); clauses are asserted only where the sign is well conditioned '
+    '(distance cell centre - facet plane > 1024 x 2^-52 x max|coordinate|; by construction always) and only on facets inside the clamp-free '
+    'range of the unchanged functions.normalize (2 x area >= 1e-9); local conditioning tolerance C 2^-52 max(|p| d, d^2) (d^3 for volumes), '
+    'd = diameter of the facet / cell, C = 32: the unchanged tree stays below 0.02 of it',
 ]
 TRUSTED = ['C12: harness/meshgen.py face tables are the oracle\'s independent definition of "own faces of a cell"']
 
@@ -69,20 +97,63 @@ def gen(ctx, k):
     return G.gen_geometric(ctx.rng, kind=kind, max_cells=(4 if big else 3) if kind == 'hex' else (3 if big else 2))
 
 
+MEMORY_LAYOUTS = ['fortran', 'noncontig', 'transposed', 'readonly']
+INT_DTYPES = ['int32', 'uint32', 'uint64', 'int16', 'uint16', 'int64', 'uint8']
+
+
+def layout_for(k):
+    """dtype / memory layout of the arrays handed to femio (a storage detail of the same mesh), cycled with the case index"""
+    return {'memory': MEMORY_LAYOUTS[k % 4], 'ids': INT_DTYPES[(k // 4) % 7], 'conn': INT_DTYPES[(k // 2) % 7]}
+
+
+def _lay(a, memory):
+    if memory == 'fortran':
+        return np.asfortranarray(a)
+    if memory == 'transposed':                       # a transposed view of a C-ordered array
+        return np.ascontiguousarray(a.T).T
+    if memory == 'noncontig':                        # every second row (and the inner columns) of a larger array
+        if a.ndim == 1:
+            big = np.zeros(2 * len(a) + 1, a.dtype)
+            big[1::2] = a
+            return big[1::2]
+        big = np.zeros((2 * a.shape[0], a.shape[1] + 2), a.dtype)
+        big[::2, 1:-1] = a
+        return big[::2, 1:-1]
+    if memory == 'readonly':
+        a = a.copy()
+        a.setflags(write=False)
+    return a
+
+
 def build(m):
     """FEMData of the mesh dict on cleared caches.  `int_coords`: the node table is handed to femio as an int64 array (what
-    np.arange / np.meshgrid produce for a voxel or integer grid) - built directly, not through the float-only G.to_femio"""
-    if not m.get('int_coords'):
+    np.arange / np.meshgrid produce for a voxel or integer grid); `layout`: ids / connectivity in another integer dtype (the
+    requested one if it can hold the values, else int64), all arrays Fortran-ordered / transposed views / non-contiguous slices /
+    read-only - built directly, not through the float-only G.to_femio"""
+    lay = m.get('layout')
+    if not m.get('int_coords') and not lay:
         return U.fresh(m)
     from femio import FEMData, FEMAttribute, FEMElementalAttribute
     U.clear_caches()
-    assert all(F(v).denominator == 1 for _, p in m['nodes'] for v in p)
-    nodes = FEMAttribute('NODE', ids=np.array([i for i, _ in m['nodes']]),
-                         data=np.array([[int(v) for v in p] for _, p in m['nodes']], dtype=np.int64), silent=True)
-    el = {t: FEMAttribute(t, ids=np.array([e for e, _ in b]), data=np.array([c for _, c in b]), silent=True)
+    lay = lay or {}
+    mem = lay.get('memory')
+
+    def ints(vals, want):
+        v = np.array(vals, dtype=np.int64)
+        dt = np.dtype(want or 'int64')
+        if len(v) and (v.max() > np.iinfo(dt).max or v.min() < np.iinfo(dt).min):
+            dt = np.dtype('int64')
+        return _lay(v.astype(dt), mem)
+    if m.get('int_coords'):
+        assert all(F(v).denominator == 1 for _, p in m['nodes'] for v in p)
+        xyz = np.array([[int(v) for v in p] for _, p in m['nodes']], dtype=np.int64)
+    else:
+        xyz = np.array([[float(v) for v in p] for _, p in m['nodes']])
+    nodes = FEMAttribute('NODE', ids=ints([i for i, _ in m['nodes']], lay.get('ids')), data=_lay(xyz, mem), silent=True)
+    el = {t: FEMAttribute(t, ids=ints([e for e, _ in b], lay.get('ids')), data=ints([c for _, c in b], lay.get('conn')), silent=True)
           for t, b in m['blocks'].items()}
     fd = G.quiet(lambda: FEMData(nodes=nodes, elements=FEMElementalAttribute('ELEMENT', G.insertion_order(el))))
-    assert fd.nodes.data.dtype.kind == 'i'
+    assert not m.get('int_coords') or fd.nodes.data.dtype.kind == 'i'
     return fd
 
 
@@ -218,6 +289,8 @@ def structure_oracle(ctx, m, obs, case):
 # ---------------------------------------------------------------------------------------------------------------------
 EPS52 = 2.0 ** -52
 C_COND = 32                # calibrated: the unchanged tree stays below 0.3 in every stream (ASSUMPTIONS)
+ASSERT_NEEDLE = __import__('os').environ.get('C12_ASSERT_NEEDLE') == '1'    # findings/C12-needle-cell-sign.md: promote the classified stream
+SIGN_RISK_K = 8            # the sign clauses are asserted where 8 x (float64 risk of the sign, exact_ref) <= 1
 RAW_NORMAL_MIN = 1e-9      # clamp-free range of functions.normalize: 2 x facet area >= 1e-9 (clamp below EPSILON^2 = 1e-10)
 
 
@@ -269,16 +342,21 @@ def exact_ref(m, facets):
 
     def csum(f):        # sum of the local integer coordinates (centre = csum / len)
         return tuple(sum(X[n][k] for n in f) for k in range(3))
+    def longest(f):     # largest distance between two nodes of f (facet: edges and diagonals; cell: its diameter), coordinate units
+        return math.sqrt(max(_idot(d, d) for d in (tuple(x - y for x, y in zip(X[a], X[b]))
+                                                    for i, a in enumerate(f) for b in f[i + 1:]))) / float(D)
+    lf = np.array([longest(f) for f in facets])
     S2 = [varea2(f) for f in facets]
     N2 = [_idot(s, s) for s in S2]
     rt = [math.sqrt(n2) for n2 in N2]                       # |2 x vector area| x D^2 (int -> float is correctly rounded)
     Df = float(D)
     A = np.array(rt) / (2 * Df * Df)
     unit = np.array([[x / r if r else 0.0 for x in s] for s, r in zip(S2, rt)])
-    vol, defect, margin = {}, {}, float('inf')
+    vol, defect, margin, lc, risk = {}, {}, float('inf'), {}, {}
     vcache = {}
     for t, e, c in els:
         cs, nc = csum(c), len(c)
+        lc[e] = longest(c)
         v72 = 0         # 72 x volume x D^3, face by face (centroid fan of every face; the exact volume for planar faces)
         d72 = 0         # 72 x (1/3 sum S_out . centre) x D^3 in the local frame (= volume for planar faces: C12_divergence)
         for fl in G.FACES[t]:
@@ -287,40 +365,58 @@ def exact_ref(m, facets):
             if f not in vcache:
                 s2, g = varea2(f), csum(f)
                 fan = 12 * U.det3(*[X[x] for x in f]) if n == 3 else 3 * sum(U.det3(g, X[f[i - 1]], X[f[i]]) for i in range(n))
-                vcache[f] = (s2, g, fan, (12 // n) * _idot(s2, g), math.sqrt(_idot(s2, s2)))
-            s2, g, fan, flux, r2 = vcache[f]
+                vcache[f] = (s2, g, fan, (12 // n) * _idot(s2, g), math.sqrt(_idot(s2, s2)), longest(f))
+            s2, g, fan, flux, r2, lface = vcache[f]
             v72 += fan
             d72 += flux
             if r2:
                 # distance of the cell centre from the facet plane, in units of the coordinates
                 rel = (nc * g[0] - n * cs[0], nc * g[1] - n * cs[1], nc * g[2] - n * cs[2])   # n nc D (facet centre - cell centre)
-                margin = min(margin, abs(_idot(rel, s2)) / (n * nc * Df * r2))
+                mg = abs(_idot(rel, s2)) / (n * nc * Df * r2)
+                margin = min(margin, mg)
+                # float64 risk of the sign of (facet centre - cell centre) . unit normal when the normal is a normalised cross product
+                # of two edge vectors: direction error of the normal ~ 2^-52 l^2 / A (cancellation on a needle-shaped facet) times the
+                # length of the relative vector, plus the rounding of the centres, over the exact distance from the facet plane
+                rl = math.sqrt(_idot(rel, rel)) / (n * nc * Df)
+                risk[e] = max(risk.get(e, 0.0), (EPS52 * lface * lface / (r2 / (2 * Df * Df)) * rl + EPS52 * P) / mg if mg else float('inf'))
         vol[e] = v72 / (72 * D ** 3)
         defect[e] = abs((d72 - v72) / (72 * D ** 3))
     return {'P': P, 'L': L, 'kappa': max(P / L, 1.0), 'A': A, 'unit': unit, 'vol': vol, 'defect': defect, 'margin': margin,
-            'in_range': 2 * A >= RAW_NORMAL_MIN}
+            'in_range': 2 * A >= RAW_NORMAL_MIN, 'lf': lf, 'lc': lc, 'sign_risk': risk}
 
 
-def metric_oracle(ctx, m, obs, case, planar, rows, ref=None, label=''):
+def metric_oracle(ctx, m, obs, case, planar, rows, ref=None, label='', local=False):
     """metric clauses against the exact reference; `rows` from structure_oracle.  Every assertion is a clause of the property
     (area x normal is the area vector of the facet: the normal is a unit vector perpendicular to the facet and the area is the
-    facet's area; closure; divergence) with a tolerance that follows from the conditioning of the clause (ASSUMPTIONS)."""
+    facet's area; closure; divergence) with a tolerance that follows from the conditioning of the clause (ASSUMPTIONS).
+    `local`: the length in the tolerance is the diameter of the facet / cell itself instead of the longest edge of the mesh (on a
+    graded mesh a tolerance relative to the largest cell is an absolute tolerance for the small ones and judges nothing there);
+    elsewhere the local ratios are recorded as a diagnostic only."""
     R = obs['_ref'] = ref or obs.get('_ref') or exact_ref(m, obs['facets'])
-    L, kap = R['L'], R['kappa']
-    t2 = C_COND * EPS52 * kap * L * L
-    t3 = C_COND * EPS52 * kap * L ** 3
+    L, kap, P = R['L'], R['kappa'], R['P']
+    lf = R['lf']
+    lcs = np.array([R['lc'][e] for e in obs['cells']])
+    g2f, g2c = C_COND * EPS52 * np.maximum(P * lf, lf * lf), C_COND * EPS52 * np.maximum(P * lcs, lcs * lcs)   # local h^2 units
+    g3c = g2c * lcs
+    if local:
+        t2f, t2c, t3c = g2f, g2c, g3c
+    else:
+        t2 = C_COND * EPS52 * kap * L * L
+        t2f, t2c, t3c = np.full(len(lf), t2), np.full(len(lcs), t2), np.full(len(lcs), C_COND * EPS52 * kap * L ** 3)
+    pre = label + ':' if local else ''
     n = np.array(obs['normals'], dtype=float).reshape(-1, 3)
     a = np.array(obs['areas'], dtype=float)
     ok = R['in_range']
     if not ok.all():
         ctx.count('facets-below-the-clamp-range (nothing metric asserted)', int((~ok).sum()))
-    info = {'stream': label or 'main', 'max_abs_coordinate': R['P'], 'longest_edge': L, 'kappa': kap}
-    if R['margin'] <= 64 * EPS52 * R['P']:
+    info = {'stream': label or 'main', 'max_abs_coordinate': P, 'longest_edge': L, 'kappa': kap,
+            'tolerance_length': 'diameter of the facet / cell' if local else 'longest edge of the mesh'}
+    if R['margin'] <= 64 * EPS52 * P:
         ctx.count('sign-ill-conditioned (metric clauses not asserted)')
         return
-    tn = t2 / np.maximum(R['A'], 1e-300) + 1e-12
+    tn = t2f / np.maximum(R['A'], 1e-300) + 1e-12
     ln = np.linalg.norm(n, axis=1)
-    _worst('normal-length', np.abs(ln - 1.0), tn, ok)
+    _worst(pre + 'normal-length', np.abs(ln - 1.0), tn, ok)
     bad = np.nonzero(ok & ~(np.abs(ln - 1.0) <= tn))[0]
     if len(bad):
         j = int(bad[0])
@@ -332,7 +428,7 @@ def metric_oracle(ctx, m, obs, case, planar, rows, ref=None, label=''):
         return
     par = np.einsum('ij,ij->i', n, R['unit'])
     off = np.abs(n - par[:, None] * R['unit']).max(axis=1)
-    _worst('normal-direction', off, tn, ok)
+    _worst(pre + 'normal-direction', off, tn, ok)
     bad = np.nonzero(ok & ~(off <= tn))[0]
     if len(bad):
         j = int(bad[0])
@@ -340,31 +436,43 @@ def metric_oracle(ctx, m, obs, case, planar, rows, ref=None, label=''):
                  case, {**info, 'facet': obs['facets'][j], 'normal': n[j].tolist(), 'exact_unit_normal': R['unit'][j].tolist(),
                         'tangential_part': float(off[j]), 'tolerance': float(tn[j])})
         return
-    _worst('facet-area', np.abs(a - R['A']), t2, ok)
-    bad = np.nonzero(ok & ~(np.abs(a - R['A']) <= t2))[0]
+    _worst(pre + 'facet-area', np.abs(a - R['A']), t2f, ok)
+    bad = np.nonzero(ok & ~(np.abs(a - R['A']) <= t2f))[0]
     if len(bad):
         j = int(bad[0])
         ctx.fail('facet-area:wrong', f'area of {len(bad)} planar facet(s) of the returned facet mesh differs from the exact area', case,
-                 {**info, 'facet': obs['facets'][j], 'area': float(a[j]), 'exact_area': float(R['A'][j]), 'tolerance': t2})
+                 {**info, 'facet': obs['facets'][j], 'area': float(a[j]), 'exact_area': float(R['A'][j]), 'tolerance': float(t2f[j])})
         return
+    if not local:
+        _worst('local(diagnostic):facet-area', np.abs(a - R['A']), g2f, ok)
+        _worst('local(diagnostic):normal-direction', off, g2f / np.maximum(R['A'], 1e-300) + 1e-12, ok)
     Av = a[:, None] * n
     Cn = np.array(obs['centres'], dtype=float)
+    n_cells = 0
     for i, e in enumerate(obs['cells']):
         if not all(ok[j] for j, _ in rows[i]):
             continue
+        n_cells += 1
         s = sum((v * Av[j] for j, v in rows[i]), np.zeros(3))
-        _worst('closure', np.abs(s), t2)
-        if not np.all(np.abs(s) <= t2):
+        _worst(pre + 'closure', np.abs(s), t2c[i])
+        if not np.all(np.abs(s) <= t2c[i]):
             ctx.fail('identity:area-vectors-do-not-sum-to-zero', 'signed area vectors of a cell do not sum to zero', case,
-                     {**info, 'cell': e, 'sum': s.tolist(), 'tolerance': t2, 'largest_facet_area': float(max(R['A'][j] for j, _ in rows[i]))})
+                     {**info, 'cell': e, 'sum': s.tolist(), 'tolerance': float(t2c[i]),
+                      'largest_facet_area': float(max(R['A'][j] for j, _ in rows[i]))})
             return
         d = sum(v * float(Av[j] @ Cn[j]) for j, v in rows[i]) / 3
-        tol = t3 + R['defect'][e]
-        _worst('divergence', abs(d - R['vol'][e]), tol)
+        tol = float(t3c[i]) + R['defect'][e]
+        _worst(pre + 'divergence', abs(d - R['vol'][e]), tol)
         if not abs(d - R['vol'][e]) <= tol:
             ctx.fail('identity:divergence', 'one third of the signed sum of area x (normal . centre) differs from the cell volume',
                      case, {**info, 'cell': e, 'divergence_sum': d, 'exact_volume': R['vol'][e], 'tolerance': tol})
             return
+        if not local:
+            _worst('local(diagnostic):closure', np.abs(s), g2c[i])
+            _worst('local(diagnostic):divergence', abs(d - R['vol'][e]), float(g3c[i]) + R['defect'][e])
+    if local:
+        ctx.count(f'{label}:cells with both metric identities asserted', n_cells)
+        ctx.count(f'{label}:cells touching a facet below the clamp-free range (identities not asserted)', len(obs['cells']) - n_cells)
     ctx.count('metric-oracle:cases' + (':' + label if label else ''))
 
 
@@ -507,15 +615,223 @@ def variant_case(ctx, stream, base, obs0, tr, k=None):
     metamorphic(ctx, stream, tr, obs0, R0, obs2, R2, case, part='metric')
 
 
+# ---------------------------------------------------------------------------------------------------------------------
+# stream `extreme-geometry`: extreme but legal geometry within ONE mesh - very thin layers, strong grading
+# ---------------------------------------------------------------------------------------------------------------------
+LINEAR_MAPS = {       # exact rational maps applied to the tensor grid; `rot-*` are rotations with non-dyadic entries
+    'axis': [[1, 0, 0], [0, 1, 0], [0, 0, 1]],
+    'shear': [[1, F(1, 4), F(-1, 2)], [0, 1, F(3, 4)], [0, 0, 1]],
+    'rot-3': [[F(2, 3), F(-1, 3), F(2, 3)], [F(2, 3), F(2, 3), F(-1, 3)], [F(-1, 3), F(2, 3), F(2, 3)]],
+    'rot-5': [[F(3, 5), F(-4, 5), 0], [F(4, 5), F(3, 5), 0], [0, 0, 1]],
+    'rot-7': [[F(2, 7), F(3, 7), F(6, 7)], [F(6, 7), F(2, 7), F(-3, 7)], [F(-3, 7), F(6, 7), F(-2, 7)]],
+}
+THIN_RATIOS = [(-4, F(1, 2 ** 13)), (-4, F(1, 10 ** 4)), (-5, F(1, 2 ** 17)), (-5, F(3, 10 ** 5)), (-6, F(1, 2 ** 20)), (-6, F(1, 10 ** 6)),
+               (-7, F(1, 2 ** 23)), (-7, F(37, 10 ** 8)), (-8, F(1, 2 ** 26)), (-8, F(2, 10 ** 8)), (-9, F(1, 2 ** 30)), (-9, F(1, 10 ** 9)),
+               (-8, F(1, 10 ** 8)), (-9, F(3, 10 ** 9))]
+GRADE_RATIOS = [F(10 ** 2), F(10 ** 6), F(2 ** 10), F(10 ** 4), F(2 ** 20), F(10 ** 3), F(2 ** 13), F(10 ** 5), F(317), F(2 ** 17), F(2 ** 7)]
+EXTREME_STYLES = ['thin', 'graded', 'thin', 'graded', 'thin2', 'thin+graded', 'graded']
+
+
+def gen_extreme(ctx, k, layout=None):
+    """stream `extreme-geometry` (RULE): a tensor-product grid (hex cells, or their Kuhn split into tets) whose spacings are extreme
+    within ONE mesh, mapped by an exact rational linear map + offset, placed at an absolute scale 2^e and rounded to float64 (the
+    mesh is DEFINED by the rounded coordinates: the reference is evaluated on them).  k = index within the stream."""
+    rng = ctx.rng
+    kind = 'tet' if k % 2 == 0 else 'hex'
+    style = EXTREME_STYLES[(k // 2) % 7]
+    # position of this case among the thin / graded cases of its kind: the ratio tables are cycled, not sampled
+    j_thin = sum('thin' in EXTREME_STYLES[(q // 2) % 7] for q in range(k % 2, k, 2))
+    j_grad = sum('graded' in EXTREME_STYLES[(q // 2) % 7] for q in range(k % 2, k, 2))
+    big = (not ctx.quick) and k % 5 == 0
+    nmax = (4 if big else 3) if kind == 'hex' else (3 if big else 2)
+    n = [rng.randint(1, nmax) for _ in range(3)]
+    axes = rng.sample(range(3), 3)
+    role = {a: 'plain' for a in range(3)}
+    if style in ('thin', 'thin+graded'):
+        role[axes[0]] = 'thin'
+    if style == 'thin2':
+        for a in axes[:rng.choice([2, 2, 3])]:
+            role[a] = 'thin'
+            if a != axes[0]:
+                n[a] = max(n[a], 2)                      # at most one axis consists of thin layers only (a sheet)
+    if style == 'thin+graded':
+        role[axes[1]] = 'graded'
+    if style == 'graded':
+        for a in axes[:rng.choice([1, 2, 2, 3])]:
+            role[a] = 'graded'
+    tau_exp, tau = THIN_RATIOS[(5 * j_thin + (k % 2) * 7) % len(THIN_RATIOS)] if 'thin' in style else (0, None)
+    rho = GRADE_RATIOS[(3 * j_grad + (k % 2) * 5) % len(GRADE_RATIOS)] if 'graded' in style else None
+    sp = {}
+    for a in range(3):
+        if role[a] == 'graded':
+            n[a] = max(n[a], 2)
+            # neighbouring regions whose sizes differ by the factor rho (at most two steps; rho >= 1e5 one step: the cells of one
+            # mesh then span up to 8 orders of magnitude in length, 16 in facet area)
+            pats = {2: [[0, 1], [1, 0]], 3: [[0, 1, 2], [2, 1, 0], [1, 0, 1], [0, 0, 1], [1, 0, 0], [0, 1, 0]],
+                    4: [[0, 0, 1, 1], [0, 1, 2, 2], [1, 0, 0, 1], [2, 1, 0, 0], [0, 1, 1, 2]]}[n[a]]
+            pat = rng.choice([q for q in pats if max(q) < 2 or rho <= 10 ** 4])
+            sp[a] = [rng.choice([F(1), F(1), F(3, 2), F(7, 10)]) * rho ** g for g in pat]
+        else:
+            sp[a] = [rng.choice([F(1), F(1), F(3, 2), F(2), F(7, 10)]) for _ in range(n[a])]
+    if tau is not None:
+        # thickness of the thin layers = tau x extent of the model (largest side of the grid without the thin layers)
+        thin = {a: sorted(rng.sample(range(n[a]), rng.randint(1, max(1, n[a] - 1)))) for a in range(3) if role[a] == 'thin'}
+        ext = max(sum(h for j, h in enumerate(sp[a]) if j not in thin.get(a, [])) for a in range(3))
+        for a, js in thin.items():
+            for j in js:
+                sp[a][j] = tau * ext * rng.choice([1, 1, 2])
+    lev = [[sum(sp[a][:j], F(0)) for j in range(n[a] + 1)] for a in range(3)]
+    nx, ny, nz = n
+
+    def idx(x, y, z):
+        return x + (nx + 1) * (y + (ny + 1) * z)
+    cells = [(x, y, z) for z in range(nz) for y in range(ny) for x in range(nx)]
+    if rng.random() < .35 and len(cells) > 2:           # voids / re-entrant boundary shapes
+        cells = rng.sample(cells, rng.randint(max(1, len(cells) // 2), len(cells) - 1))
+    elems = []
+    for (x, y, z) in cells:
+        c = [idx(x, y, z), idx(x + 1, y, z), idx(x + 1, y + 1, z), idx(x, y + 1, z),
+             idx(x, y, z + 1), idx(x + 1, y, z + 1), idx(x + 1, y + 1, z + 1), idx(x, y + 1, z + 1)]
+        elems += [('tet', [c[i] for i in t]) for t in G.KUHN] if kind == 'tet' else [('hex', c)]
+    mname = ['axis', 'axis', 'shear', 'rot-3', 'rot-5', 'rot-7'][(k // 2 + k // 12) % 6]
+    perm, sg = rng.sample(range(3), 3), [rng.choice([1, -1]) for _ in range(3)]
+    M = [[LINEAR_MAPS[mname][r][perm[c]] * sg[c] for c in range(3)] for r in range(3)]
+    size = max(lv[-1] for lv in lev)
+    where = rng.choice(['corner', 'centred', 'offset', 'offset'])
+    off = {'corner': [F(0)] * 3, 'centred': None,
+           'offset': [F(rng.randint(-200, 200), 100) * size for _ in range(3)]}[where]
+    raw = {idx(x, y, z): tuple(sum(M[r][c] * q for c, q in enumerate((lev[0][x], lev[1][y], lev[2][z]))) for r in range(3))
+           for z in range(nz + 1) for y in range(ny + 1) for x in range(nx + 1)}
+    used = sorted({v for _, c in elems for v in c})
+    if off is None:
+        off = [-(max(raw[v][r] for v in used) + min(raw[v][r] for v in used)) / 2 for r in range(3)]
+    raw = {v: tuple(x + o for x, o in zip(q, off)) for v, q in raw.items()}
+    n_unref = 0
+    if rng.random() < .25:                              # unreferenced nodes, outside the body (they enlarge the bounding box)
+        for j in range(rng.randint(1, 2)):
+            raw[-1 - j] = tuple(x + size * F(rng.randint(5, 30), 10) * rng.choice([1, -1]) for x in raw[rng.choice(used)])
+            used.append(-1 - j)
+            n_unref += 1
+    # ---- absolute scale 2^e: smallest facet just inside / well inside / below the clamp-free range of the unchanged tree
+    fl = {v: np.array([float(x) for x in q]) for v, q in raw.items()}
+    a2 = []
+    for t, c in elems:
+        for f in G.FACES[t]:
+            q = [fl[c[i]] for i in f]
+            a2.append(np.linalg.norm(np.cross(q[1] - q[0], q[2] - q[0])) if len(q) == 3 else np.linalg.norm(np.cross(q[2] - q[0], q[3] - q[1])))
+    e_min = math.ceil(math.log(4 * RAW_NORMAL_MIN / min(a2), 4))          # 2 x area of the smallest facet in [4e-9, 1.6e-8)
+    cls = ['edge', 'inside', 'edge', 'inside', 'inside', 'edge', 'below'][(k // 2 + k // 14) % 7]
+    e = e_min + {'edge': 0, 'inside': rng.randint(1, 24), 'below': -rng.randint(2, 8)}[cls]
+    pts = {v: tuple(F(float(x * F(2) ** e)) for x in q) for v, q in raw.items()}
+    fixed = []
+    for ty, c in elems:
+        if G.signed(ty, [pts[v] for v in c]) < 0:
+            c = [c[i] for i in {'tet': [0, 2, 1, 3], 'hex': [0, 3, 2, 1, 4, 7, 6, 5]}[ty]]
+        assert G.signed(ty, [pts[v] for v in c]) > 0
+        fixed.append((ty, c))
+    small = bool(layout) and any(np.iinfo(np.dtype(layout[w])).max < 2 ** 31 - 1 for w in ('ids', 'conn'))    # 8 / 16-bit ids: dense
+    id_list, id_style = G.random_ids(rng, len(used), 'dense' if small else 'pow2' if k % 9 == 8 else None)
+    rng.shuffle(id_list)
+    ids = dict(zip(used, id_list))
+    keys, order = G.order_ids(rng, used, ids)
+    eid_list, _ = G.random_ids(rng, len(fixed), 'dense' if small else rng.choice(['dense', 'sparse', 'large']))
+    rng.shuffle(eid_list)
+    blk = [(eid, [ids[v] for v in c]) for (ty, c), eid in zip(fixed, eid_list)]
+    rng.shuffle(blk)
+    ratio = max(a2) / min(a2)
+    return {'kind': kind, 'order': order, 'id_style': id_style, 'jittered': False, 'n_unref': n_unref, 'layout': layout,
+            'nodes': [(ids[v], pts[v]) for v in keys], 'blocks': {kind: blk},
+            'extreme': {'style': style, 'map': mname, 'where': where, 'scale_class': cls, 'scale_exp': e, 'cells_per_axis': n,
+                        'roles': [role[a] for a in range(3)], 'thin_ratio': str(tau) if tau is not None else None,
+                        'thin_ratio_exp': tau_exp if tau is not None else None, 'thin_dyadic': (tau.denominator & (tau.denominator - 1) == 0)
+                        if tau is not None else None, 'grading_ratio': str(rho) if rho is not None else None,
+                        'facet_area_ratio': float(ratio), 'voids': len(cells) < nx * ny * nz}}
+
+
+def extreme_case(ctx, m, replaying=False):
+    """one case of the stream `extreme-geometry`: structure clauses (asserted whenever the sign is well conditioned), the exact
+    model's facets / incidence / signs (D tie), metric clauses with LOCAL conditioning tolerances"""
+    X = m.get('extreme') or {}
+    case = U.mesh_case(m, stream='extreme-geometry', extreme=X, layout=m.get('layout'))
+    if m.get('layout'):
+        _count_layout(ctx, m)
+    key = ('extreme', tuple(m['nodes']), tuple((t, tuple((e, tuple(c)) for e, c in b)) for t, b in m['blocks'].items()))
+    obs = U.guarded(ctx, case, key, light_obs, ctx, m, False)
+    if obs is None:
+        return None
+    n_int = sum(len(G.FACES[t]) for t, _, _ in U.elem_list(m)) - len(obs['facets'])
+    ctx.case(key, sample={**G.describe(m), 'stream': 'extreme-geometry', **X, 'facets': len(obs['facets']), 'interior_facets': n_int}
+             if ctx.dist.get('stream:extreme-geometry', 0) <= 3 else None, nontrivial=n_int > 0)
+    for lab in ('style', 'map', 'where', 'scale_class', 'thin_dyadic'):
+        if X.get(lab) is not None:
+            ctx.count(f'extreme-geometry:{lab}:{X[lab]}')
+    ctx.count(f'extreme-geometry:kind:{m["kind"]}')
+    if X.get('thin_ratio_exp') is not None:
+        ctx.count(f'extreme-geometry:layer thickness / extent ~1e{X["thin_ratio_exp"]}')
+    if X.get('grading_ratio') is not None:
+        ctx.count(f'extreme-geometry:size ratio of neighbouring regions ~1e{round(math.log10(float(F(X["grading_ratio"]))))}')
+    if X.get('facet_area_ratio'):
+        ctx.count(f'extreme-geometry:largest / smallest facet area ~1e{math.floor(math.log10(X["facet_area_ratio"]))}')
+    # facets of the cells themselves (not of the returned facet mesh): the reference must not depend on the observation
+    own, seen = [], set()
+    for t, _, c in U.elem_list(m):
+        for f in G.FACES[t]:
+            q = tuple(c[i] for i in f)
+            if tuple(sorted(q)) not in seen:
+                seen.add(tuple(sorted(q)))
+                own.append(q)
+    R0 = exact_ref(m, own)
+    if R0['margin'] <= 1024 * EPS52 * R0['P']:
+        ctx.count('extreme-geometry:sign-ill-conditioned (classified, nothing asserted)')
+        return None
+    worst_risk = max(R0['sign_risk'].values())
+    WORST['extreme-geometry:sign-risk of the asserted meshes'] = max(WORST.get('extreme-geometry:sign-risk of the asserted meshes', 0.0),
+                                                                     worst_risk if SIGN_RISK_K * worst_risk <= 1 else 0.0)
+    if SIGN_RISK_K * worst_risk > 1:
+        # needle cells (thin in TWO directions, aspect >= ~1e8, Kuhn tets of the crossing of two thin layers): the sign of a float64
+        # cross-product normal is not determined there although the exact sign is stable under perturbation of the coordinates
+        # (findings/C12-needle-cell-sign.md).  Classified and counted, never asserted.
+        label = 'extreme-geometry:needle cells (float64 sign of a cross-product normal ill-conditioned; not asserted)'
+        ctx.count(label)
+        sh = _Shadow(ctx, label, report_as=('needle-cell:', case) if ASSERT_NEEDLE else None)
+        rows = structure_oracle(sh, m, obs, None)
+        if rows is not None:
+            pos = {tuple(sorted(q)): j for j, q in enumerate(own)}
+            ix = np.array([pos[tuple(sorted(f))] for f in obs['facets']], dtype=int)
+            metric_oracle(sh, m, obs, None, True, rows, dict(R0, **{key: R0[key][ix] for key in ('A', 'unit', 'lf', 'in_range')}),
+                          label='needle', local=True)
+        ctx.count(f'{label}:{"clauses hold" if not sh.failures else "clauses fail"}')
+        return None
+    n0 = len(ctx.failures)
+    if ctx.driver is not None and len(U.elem_list(m)) <= 60:
+        d0 = len(ctx.disagreements)
+        flags = correspond(ctx, m, obs, case, True, p_tie=False)
+        ctx.count('extreme-geometry:model correspondence (facets, incidence, signs)')
+        if flags is not None and not all(flags.values()) and len(ctx.disagreements) == d0:
+            ctx.disagree('a theorem hypothesis evaluates to false on a generator-conforming mesh', case, None, flags)
+    rows = structure_oracle(ctx, m, obs, case)
+    if rows is None:
+        return None
+    # the reference in the order of the returned facet rows (structure_oracle has established that they are the cells' faces; the
+    # orientation of a row does not enter the metric clauses: |normal|, tangential part, area)
+    pos = {tuple(sorted(q)): j for j, q in enumerate(own)}
+    ix = np.array([pos[tuple(sorted(f))] for f in obs['facets']], dtype=int)
+    R = dict(R0, **{key: R0[key][ix] for key in ('A', 'unit', 'lf', 'in_range')})
+    metric_oracle(ctx, m, obs, case, True, rows, R, label='extreme-geometry', local=True)
+    return obs if len(ctx.failures) == n0 else None
+
+
 class _Shadow:
     """ctx stand-in for a labelled stream whose classification is open: failures are counted, never reported"""
 
-    def __init__(self, ctx, label):
-        self.ctx, self.label, self.failures, self.dist = ctx, label, [], ctx.dist
+    def __init__(self, ctx, label, report_as=None):
+        self.ctx, self.label, self.failures, self.dist, self.report_as = ctx, label, [], ctx.dist, report_as
 
     def fail(self, signature, what, case, observed=None):
         self.failures.append(signature)
         self.ctx.count(f'{self.label}:would-fail:{signature}')
+        if self.report_as:      # promoted by the integrator (C12_ASSERT_NEEDLE=1): reported under its own stable signature prefix
+            self.ctx.fail(self.report_as[0] + signature, what, self.report_as[1], observed)
 
     def count(self, key, k=1):
         self.ctx.count(f'{self.label}:{key}', k)
@@ -548,7 +864,7 @@ def mixed_components_stream(ctx, n):
         ctx.count(f'{label}:{"clauses hold" if not sh.failures else "clauses fail"}')
 
 
-def correspond(ctx, m, obs, case, planar):
+def correspond(ctx, m, obs, case, planar, p_tie=True):
     enc = G.enc_mesh(m)
     t = C.Toks(ctx.driver.ask('c12.incidence ' + enc))
     if t.tok() != 'ok':
@@ -569,6 +885,8 @@ def correspond(ctx, m, obs, case, planar):
         diff = sorted(set(mt) ^ set(obs['triples']))[:6]
         ctx.disagree('signed incidence triples (cell, facet, sign)', case, [x for x in diff if x in set(obs['triples'])],
                      [x for x in diff if x in set(mt)])
+    if not p_tie:
+        return flags
     # P tie
     t = C.Toks(ctx.driver.ask('c12.geom ' + enc))
     t.tok()
@@ -609,8 +927,20 @@ def _centres(m):
     return [[pos[n][j] for n in c] for _, _, c in U.elem_list(m) for j in range(3)]
 
 
+def _count_layout(ctx, m):
+    ly = m['layout']
+    mx = max(max(i for i, _ in m['nodes']), max(e for b in m['blocks'].values() for e, _ in b))
+    ctx.count('layout:memory:' + ly['memory'])
+    for what in ('ids', 'conn'):
+        fits = mx <= np.iinfo(np.dtype(ly[what])).max
+        ctx.count(f'layout:{what} dtype:{ly[what] if fits else "int64 (requested dtype too small)"}')
+
+
 def one_case(ctx, m):
-    case = U.mesh_case(m, jittered=bool(m.get('jittered')), reuse=bool(m.get('reuse')), int_coords=bool(m.get('int_coords')))
+    case = U.mesh_case(m, jittered=bool(m.get('jittered')), reuse=bool(m.get('reuse')), int_coords=bool(m.get('int_coords')),
+                       layout=m.get('layout'))
+    if m.get('layout'):
+        _count_layout(ctx, m)
     planar = m['kind'] == 'tet' or not m.get('jittered')
     key = (tuple(m['nodes']), tuple((t, tuple((e, tuple(c)) for e, c in b)) for t, b in m['blocks'].items()))
     n_fail = len(ctx.failures)
@@ -647,6 +977,7 @@ def run(ctx):
             mm['reuse'] = obj['input'].get('reuse', False)
             if obj['input'].get('int_coords'):
                 mm['int_coords'], mm['int_style'] = True, 'corpus'
+            mm['layout'] = obj['input'].get('layout')
             one_case(ctx, mm)
             ctx.count('corpus')
         except Exception as e:  # noqa
@@ -666,9 +997,14 @@ def run(ctx):
         kind = 'tet' if k % 2 == 0 else 'hex'
         m = G.gen_geometric(ctx.rng, kind=kind, max_cells=3 if kind == 'hex' else 2, id_style='pow2')
         ctx.count('stream:ids-pow2')
+        if k % 3 == 1:
+            m['layout'] = layout_for(k // 3)
         one_case(ctx, m)
     for k in range(ctx.n(40, 400) if ctx.driver is not None else ctx.n(80, 500)):
-        one_case(ctx, gen_int(ctx, k))
+        m = gen_int(ctx, k)
+        if k % 3 == 2:
+            m['layout'] = layout_for(k // 3 + 1)
+        one_case(ctx, m)
     # ---- the main-loop meshes at another absolute scale / far from the origin (inside the quantifier: "any size"); drawn last
     for stream, draw in (('absolute-scale', draw_scale), ('far-offset', draw_offset)):
         for j, (m, obs) in enumerate(bases[stream]):
@@ -676,6 +1012,13 @@ def run(ctx):
             Rb = obs.get('_ref') or exact_ref(m, obs['facets'])
             tr = draw(ctx.rng, j, Rb)
             variant_case(ctx, stream, m, obs, tr)
+    # ---- extreme but legal geometry within one mesh (inside the quantifier: "any size, any boundary shape"); drawn last
+    import time
+    t_ext = time.time()
+    for k in range(ctx.n(42, 420) if ctx.driver is not None else ctx.n(84, 600)):
+        ctx.count('stream:extreme-geometry')
+        extreme_case(ctx, gen_extreme(ctx, k, layout_for(k // 3 + 2) if k % 3 == 0 else None))
+    ctx.extra['extreme_geometry_wall_s'] = round(time.time() - t_ext, 2)
     mixed_components_stream(ctx, ctx.n(2, 20))
     ctx.extra['conditioning'] = {'C': C_COND, 'unit': '2^-52 * max(|p| / h, 1) * h^d', 'raw_normal_min': RAW_NORMAL_MIN,
                                  'largest_observed_deviation_over_tolerance': {k: round(v, 6) for k, v in sorted(WORST.items())}}
@@ -694,12 +1037,22 @@ def replay(ctx, obj):
         return {'describe': G.describe(base), 'stream': obj['input']['stream'], 'transform': obj['input']['transform'],
                 'failures': [{'signature': f['signature'], 'what': f['what'], 'observed': f['observed']} for f in ctx.failures[n0:]],
                 'fails': len(ctx.failures) > n0}
+    if obj['input'].get('stream') == 'extreme-geometry':
+        m = G.from_json(obj['input']['mesh'])
+        m['jittered'], m['extreme'], m['layout'] = False, obj['input'].get('extreme') or {}, obj['input'].get('layout')
+        n0, d0 = len(ctx.failures), len(ctx.disagreements)
+        extreme_case(ctx, m, replaying=True)
+        return {'describe': G.describe(m), 'stream': 'extreme-geometry', 'extreme': m['extreme'],
+                'failures': [{'signature': f['signature'], 'what': f['what'], 'observed': f['observed']} for f in ctx.failures[n0:]],
+                'model_disagreements': [{'what': d['what'], 'impl': d['impl'], 'model': d['model']} for d in ctx.disagreements[d0:]],
+                'fails': len(ctx.failures) > n0}
     m = G.from_json(obj['input']['mesh'])
     m['jittered'] = obj['input'].get('jittered', False)
     m['reuse'] = obj['input'].get('reuse', False)
     m['int_coords'] = obj['input'].get('int_coords', False)
+    m['layout'] = obj['input'].get('layout')
     planar = m['kind'] == 'tet' or set(m['blocks']) == {'tet'} or not m['jittered']
-    case = U.mesh_case(m, jittered=m['jittered'], int_coords=m['int_coords'])
+    case = U.mesh_case(m, jittered=m['jittered'], int_coords=m['int_coords'], layout=m['layout'])
     n0 = len(ctx.failures)
     obs = U.guarded(ctx, case, 'replay', real_obs, ctx, m)
     if obs is None:
